@@ -138,6 +138,42 @@ fn c03_eocd_parse() {
     }
 }
 
+/// C09/C03 end record parse under short reads: the underlying reader returns ONE byte per read
+/// call (a symbolic chunk schedule makes every later buffer index symbolic and did not finish
+/// within the caps); all fields (symbolic) and the 3-byte comment are decoded exactly as from a
+/// reader that never splits.
+// @h prop=C09,C03 tier=quick t=300 mem=4
+#[kani::proof]
+#[kani::unwind(8)]
+fn c09_eocd_parse_short_reads() {
+    let mut b = [0u8; 32];
+    let cm: [u8; 3] = kani::any();
+    let (d, cd, nh, nt): (u16, u16, u16, u16) = (kani::any(), kani::any(), kani::any(), kani::any());
+    let (sz, off): (u32, u32) = (kani::any(), kani::any());
+    put_eocd(&mut b, 0, d, cd, nh, nt, sz, off, &cm);
+    let mut src = Src::<32>::with_env(b, 25, Env::short(0)); // every read call returns exactly 1 byte
+    match CentralDirectoryEnd::parse(&mut src) {
+        Ok(e) => {
+            assert_eq!(e.disk_number, d);
+            assert_eq!(e.disk_with_central_directory, cd);
+            assert_eq!(e.number_of_files_on_this_disk, nh);
+            assert_eq!(e.number_of_files, nt);
+            assert_eq!(e.central_directory_size, sz);
+            assert_eq!(e.central_directory_offset, off);
+            assert_eq!(e.zip_file_comment.len(), 3);
+            assert_eq!(e.zip_file_comment[0], cm[0]);
+            assert_eq!(e.zip_file_comment[1], cm[1]);
+            assert_eq!(e.zip_file_comment[2], cm[2]);
+            kani::cover!(src.env.calls > 20);
+            core::mem::forget(e);
+        }
+        Err(x) => {
+            core::mem::forget(x);
+            assert!(false, "a complete end record was refused because the reader returned short reads");
+        }
+    }
+}
+
 macro_rules! c05_find_eocd {
     ($name:ident, $len:expr, $unwind:expr) => {
         #[kani::proof]
